@@ -121,6 +121,9 @@ func recurringTimer(ctx context.Context, clock clock.IClock, interval iso8601.Re
 		case <-ctx.Done():
 			return
 		case t = <-timer:
+			if ctx.Err() != nil {
+				return
+			}
 			if interval.Interval.End == nil || interval.Interval.End.After(clock.Now()) {
 				f()
 			}
@@ -139,6 +142,9 @@ func dateTimeTimer(ctx context.Context, clock clock.IClock, t time.Time, f func(
 		case <-ctx.Done():
 			return
 		case <-timer:
+			if ctx.Err() != nil {
+				return
+			}
 			f()
 			return
 		}
